@@ -13,7 +13,7 @@ CFGS = {
     "P1": dict(RtmpPubs=["p1"], RtspPubs=[], CustPubs=[], PsPubs=[], RtmpSubs=["s1"], FlvSubs=[],
                PullRetry=1, PullAuto=1, PullEnabled=True, Hook=False),
     # relay push: one / two targets, RTMP and RTSP publishers, URL parameters of several lengths
-    "U1": dict(RtmpPubs=["p1", "p2"], RtspPubs=[], CustPubs=["k1"], PsPubs=[], RtmpSubs=[], FlvSubs=[],
+    "U1": dict(RtmpPubs=["p1", "p2x"], RtspPubs=[], CustPubs=["k1"], PsPubs=[], RtmpSubs=[], FlvSubs=[],
                PullRetry=0, PullAuto=-1, PullEnabled=False, Hook=False, Push=["t1"], ParamLen=300),
     "U2": dict(RtmpPubs=["p1"], RtspPubs=["q1"], CustPubs=[], PsPubs=[], RtmpSubs=[], FlvSubs=[],
                PullRetry=0, PullAuto=-1, PullEnabled=False, Hook=False, Push=["t1", "t2"], ParamLen=1000),
